@@ -1,5 +1,5 @@
 /* Harnesses for the backend-independent XML import code (C06): the backend is the executable contract of the state API. */
-static const char *attr_pool[] = { "nbobjs", "type", "indexing", "kind", "name", "length", "value", "encoding", "zz" };
+static const char *attr_pool[] = { "nbobjs", "type", "indexing", "kind", "name", "length", "value", "encoding", "zz", "cpuset", "forced_efficiency" };
 static const char *tag_pool[] = { "info", "indexes", "u64values", "zz" };
 #define NPOOL(a) (sizeof(a) / sizeof(*(a)))
 static int honor_length;           /* get_content: 1 = a delivered content has exactly the expected length (what both backends guarantee) */
@@ -101,5 +101,22 @@ void hp_xml_import_userdata(void)
   r = hwloc__xml_import_userdata(&topo, &obj, &st0);
   __CPROVER_assert(r == 0 || r == -1, "returns 0 or -1");
   __CPROVER_assert(cb_calls <= 1, "the callback is invoked at most once per element");
+  VERIF_CANARY();
+}
+
+
+/* hwloc__xml_import_cpukind for ANY attributes and children the backend may deliver: memory safe, returns 0/-1, and every
+ * cpuset it allocates is released exactly once (freed, or handed to hwloc_internal_cpukinds_register) on every path;
+ * the info list is released exactly once on every path that reaches the registration or an error after the attributes */
+void hp_xml_import_cpukind(void)
+{
+  static struct hwloc_topology topo; int r;
+  VERIF_GHOSTS();
+  mk_backend();
+  topo.flags = nondet_ulong();
+  r = hwloc__xml_import_cpukind(&topo, &st0);
+  __CPROVER_assert(r == 0 || r == -1, "returns 0 or -1");
+  __CPROVER_assert(verif_bm_allocs <= 1 && verif_bm_released == verif_bm_allocs, "the cpuset is allocated at most once and released exactly once (freed or handed to the core)");
+  __CPROVER_assert(verif_register_calls <= 1 && verif_infos_freed <= 1, "at most one registration, the info list is released at most once");
   VERIF_CANARY();
 }
